@@ -66,6 +66,25 @@ func ExecNL(op M) (res any) {
 		}
 	}
 	converted = true
+	if op["alloc"] == true {
+		// the shapes the library itself produces: Copy() gives every repeated field and map an
+		// allocated, empty value where the JSON conversion leaves nil
+		if a != nil {
+			a = a.Copy()
+		}
+		if b != nil {
+			b = b.Copy()
+		}
+		if c != nil {
+			c = c.Copy()
+		}
+		if pn != nil {
+			pn = pn.Copy()
+		}
+		if pm != nil {
+			pm = pm.Copy()
+		}
+	}
 	switch name {
 	case "cleanEdges":
 		sbom.VerifCleanEdges(a)
